@@ -566,6 +566,21 @@ func (p *c19) Run(c *verifsim.Chooser, st *Stats, render bool) *Outcome {
 		if c.Intn(5) == 1 {
 			pool := scriptPool()
 			cs.text = pool[c.Intn(len(pool))]
+			if extra := len(c08Builtins) - len(c08KnownBuiltins); extra > 0 && c.Bool() {
+				// built-ins the pinned tree does not have come last in the pool's
+				// built-in section: half of the pool draws go to them
+				var mine []string
+				for _, t := range pool {
+					for _, b := range c08Builtins[len(c08KnownBuiltins):] {
+						if strings.HasPrefix(t, "x = "+b+"(") {
+							mine = append(mine, t)
+						}
+					}
+				}
+				if len(mine) > 0 {
+					cs.text = mine[c.Intn(len(mine))]
+				}
+			}
 			cs.names, _ = analyseNames(cs.text)
 		}
 		cs.opt = c.Intn(2) == 0
